@@ -4665,6 +4665,15 @@ fn eval_assert(
         None => None,
     };
 
+    // The LHS and RHS values sit below the receiver on the value
+    // stack, so put them back too if we stop here.
+    let mut saved_values = vec![];
+    if let Some((lhs_value, _, rhs_value)) = &subexpr_values {
+        saved_values.push(lhs_value.clone());
+        saved_values.push(rhs_value.clone());
+    }
+    saved_values.push(receiver_value.clone());
+
     if let Some(b) = receiver_value.as_rust_bool() {
         if !b {
             let message = match subexpr_values {
@@ -4695,7 +4704,7 @@ fn eval_assert(
             };
 
             return Err((
-                RestoreValues(vec![receiver_value]),
+                RestoreValues(saved_values),
                 EvalError::AssertionFailed(recv_expr.position.clone(), ErrorMessage(message)),
             ));
         }
@@ -4708,7 +4717,7 @@ fn eval_assert(
             env,
         );
         return Err((
-            RestoreValues(vec![receiver_value]),
+            RestoreValues(saved_values),
             EvalError::Exception(ExceptionInfo {
                 position: recv_expr.position.clone(),
                 message,
